@@ -129,6 +129,8 @@ func checkC01(w *World, r *Report) {
 	checkR01_3(w, r, pools)
 	checkR01_4(w, r)
 	checkUseAfterRelease(w, r)
+	checkGlobalMemos(w, r, "R01.6", nil)
+	checkNoAliasedHeaders(w, r, "R01.7")
 }
 
 // ---------------------------------------------------------------- R01.3
